@@ -40,6 +40,8 @@ void __ir_landingpad(void) { printf("THROW\n"); fflush(stdout); exit(0); }
 void __ir_resume(void) { printf("THROW\n"); fflush(stdout); exit(0); }
 void verif_throw_event(void) { printf("THROW\n"); fflush(stdout); exit(0); }
 
+void verif_repo_assert_fail(const char* expr) { printf("ASSERT-FAIL repo assert(%s)\n", expr); fflush(stdout); exit(0); }
+void __assert_fail(const char* expr, const char* file, unsigned line, const char* fn) { (void)file; (void)line; (void)fn; verif_repo_assert_fail(expr); }
 /* heap log (filled by native_heap.cpp when linked; weak otherwise) */
 struct verif_heap_blk { void* p; size_t n; };
 extern struct verif_heap_blk verif_heap_log[] __attribute__((weak));
